@@ -5,7 +5,7 @@
    store operation at any time except destroying the contended resource - in particular the Get /
    Update / Create steps of any number of other concurrent helper calls. `run_ok` only requires that
    and that versions do not wrap around 2^64 during the run. *)
-From Verif Require Import Store Helpers HelpersProofs ConcHelpers ConcHelpersProofs.
+From Verif Require Import Store Helpers HelpersProofs ConcHelpers ConcHelpersProofs Counter.
 Open Scope N_scope.
 
 (* every call reporting success has its mutation applied exactly once on top of the then-current
@@ -62,3 +62,33 @@ Theorem C04_rmw_atomic_n_callers : forall cs i c s0 sched,
             nth_error (m_pcs (mrun cs (m_init cs s0) sched)) i = Some (o_pc o).
 Proof. exact rmw_atomic_n. Qed.
 Print Assumptions C04_rmw_atomic_n_callers.
+
+(* counted: any number of concurrent UpdateWithConflicts calls, each applying the non-idempotent mutator MBump (counter
+   + B) to one resource, under every schedule of their CoreState steps (versions not wrapping): at every moment the
+   stored counter is the initial one plus B times the number of calls that have reported success so far, and the
+   version has advanced by exactly that number - no successful mutation lost, none applied twice *)
+Theorem C04_bump_counter : forall cs k,
+  (forall j c, nth_error cs j = Some c -> h_kind c = KUwc /\ h_key c = k /\ h_mut c = MBump) ->
+  forall v0 spec0, spec0 <> 0 ->
+  forall s0 r0 sched,
+  st_get k s0 = Some r0 -> r_ver r0 = Some v0 -> r_spec r0 = spec0 ->
+  v0 + N.of_nat (length sched) < two64 ->
+  let s := mrun cs (m_init cs s0) sched in
+  exists cur, st_get k (m_store s) = Some cur /\
+    r_spec cur = spec0 + N.of_nat (count_ok (m_pcs s)) * bumpB /\
+    r_ver cur = Some (v0 + N.of_nat (count_ok (m_pcs s))) /\
+    (count_ok (m_pcs s) <= length sched)%nat /\ length (m_pcs s) = length cs.
+Proof. exact bump_counter. Qed.
+Print Assumptions C04_bump_counter.
+
+Theorem C04_bump_all_succeeded : forall cs k,
+  (forall j c, nth_error cs j = Some c -> h_kind c = KUwc /\ h_key c = k /\ h_mut c = MBump) ->
+  forall v0 spec0, spec0 <> 0 ->
+  forall s0 r0 sched,
+  st_get k s0 = Some r0 -> r_ver r0 = Some v0 -> r_spec r0 = spec0 ->
+  v0 + N.of_nat (length sched) < two64 ->
+  let s := mrun cs (m_init cs s0) sched in
+  (forall pc, In pc (m_pcs s) -> is_ok pc = true) ->
+  exists cur, st_get k (m_store s) = Some cur /\ r_spec cur = spec0 + N.of_nat (length cs) * bumpB.
+Proof. exact bump_all_succeeded. Qed.
+Print Assumptions C04_bump_all_succeeded.
